@@ -88,7 +88,7 @@ class DDLParser(Parser, Dialects):
         t_tag = self.parse_tags_symbols(t)
         if t_tag:
             return t_tag
-        if t.value.startswith("ARRAY"):
+        if t.value.startswith("ARRAY") and not self.lexer.sequence:
             t.type = "ARRAY"
             return t
         elif self.lexer.is_like:
